@@ -242,13 +242,13 @@ Fixpoint rd_tags_wire (k : nat) (s : list Z) : res (list Z * list Z) :=
     do '(ts, r') <- rd_tags_wire k' r; Ok (t :: ts, r')
   end.
 
-Record packet := { p_id : Z; p_job : Z; p_flags : Z; p_ntags : Z; p_tags : list Z; p_body : list Z }.
+Record packet := { p_id : Z; p_job : Z; p_flags : Z; p_ntags : Z; p_tags : list Z; p_body : list Z; p_dev : list Z }.
 
 Definition pkt_digest (p : packet) (rest : Z) : list Z :=
   [p_id p; p_job p; p_flags p; p_ntags p] ++ p_tags p ++ [len (p_body p)] ++ p_body p ++ [rest].
 
 Definition packet_wire (s : list Z) : A (packet * list Z) :=
-  al '(_, r0) <- lift (rd_devid s);
+  al '(dev, r0) <- lift (rd_devid s);
   al '(h, r1) <- lift (read_full_flat 14 r0);
   al id <- lift (idx h 0);
   al '(job, _) <- lift (rd_uN 2 (drop 1 h));
@@ -265,9 +265,9 @@ Definition packet_wire (s : list Z) : A (packet * list Z) :=
       else Err ErrInvalidType);
   al '(tags, r3) <- lift (rd_tags_wire (Z.to_nat nt) r2);
   (* the body is read in 16 KiB pieces into a buffer that grows with the bytes received *)
-  if blen =? 0 then ret (Build_packet id job flags nt tags [], r3)
+  if blen =? 0 then ret (Build_packet id job flags nt tags [] dev, r3)
   else if len r3 <? blen then lift (Err ErrUnexpectedEOF)
-  else ret (Build_packet id job flags nt tags (take blen r3), drop blen r3).
+  else ret (Build_packet id job flags nt tags (take blen r3) dev, drop blen r3).
 
 (* tags of the stream form: for i := 0; i < t && i < PacketMaxTags; i++ *)
 Fixpoint rd_tags_stream (k : nat) (s : list Z) : res (list Z * list Z) :=
@@ -286,11 +286,11 @@ Definition packet_stream (s : list Z) : A (packet * list Z) :=
   al '(job, r1) <- lift (rd_u16 r0);
   al '(nt, r2) <- lift (rd_u16 r1);
   al '(flags, r3) <- lift (rd_u64 r2);
-  al '(_, r4) <- lift (rd_devid r3);
+  al '(dev, r4) <- lift (rd_devid r3);
   al _ <- mk (4 * nt);
   al '(tags, r5) <- lift (rd_tags_stream (Z.to_nat (Z.min nt PacketMaxTags)) r4);
   al '(body, r6) <- lift (rd_bytes r5);
-  ret (Build_packet id job flags nt tags body, r6).
+  ret (Build_packet id job flags nt tags body dev, r6).
 
 (* =========================================================================================
    4. c2/task/result: the exported decoders of client-supplied result payloads.
@@ -477,6 +477,86 @@ Definition b64_read (shift : Z) (dec : res (list Z)) (p : list Z) : A (list Z) :
   end.
 
 (* =========================================================================================
+   7. receive(s, l, n) on a server-side Session (c2/vars.go): the Multi container walk over the
+      BYTES of a body (x sub-packets decoded with UnmarshalStream, nested containers walked
+      recursively) and the fragment dispatch.  The result is the error (or nil) and the state
+      of Session.frags; what the handlers do with delivered packets is not part of it.
+      Not produced on a server (l.s.Oneshot == nil, no proxy): events for oneshot packets.
+   ========================================================================================= *)
+Definition EOther : Z := 99.          (* xerr.Sub(...) errors: wrong device 0x57, not-belongs 0x52 *)
+Definition fl_bit (k : Z) (f : Z) : bool := Z.testbit f k.
+Definition fl_len (f : Z) : Z := (f / 281474976710656) mod 65536.
+Definition fl_pos (f : Z) : Z := (f / 4294967296) mod 65536.
+Definition fl_group (f : Z) : Z := (f / 65536) mod 65536.
+Definition fl_clear (f : Z) : Z := Z.lxor (f mod 65536) 1.      (* Flag.Clear: Flag(uint16(f)) ^ FlagFrag *)
+
+(* a cluster: max, empties, (ID, Job) of data[0] if any, number of non-empty members *)
+Record clus := { c_max : Z; c_e : Z; c_first : option (Z * Z); c_n : Z }.
+Definition fstate := list (Z * clus).
+Fixpoint f_lookup (g : Z) (st : fstate) : option clus :=
+  match st with [] => None | (k, c) :: r => if k =? g then Some c else f_lookup g r end.
+Definition f_remove (g : Z) (st : fstate) : fstate := filter (fun kc => negb (fst kc =? g)) st.
+
+Definition with_flags (f : Z) (p : packet) : packet :=
+  Build_packet (p_id p) (p_job p) f (p_ntags p) (p_tags p) (p_body p) (p_dev p).
+
+(* c.add(n) then c.done(): Some st' (error-free) or the not-belongs error *)
+Definition clus_add (g : Z) (c : clus) (p : packet) (st : fstate) : res fstate :=
+  let bad := match c_first c with
+             | Some (i, j) => negb ((i =? p_id p) && (j =? p_job p))
+             | None => false end in
+  if bad then Err EOther else
+  let mx := u16 (fl_len (p_flags p) - 1) in
+  let empty := is_nil (p_body p) in
+  let c' := if empty then Build_clus mx (u16 (c_e c + 1)) (c_first c) (c_n c)
+            else Build_clus mx (c_e c) (match c_first c with None => Some (p_id p, p_job p) | x => x end) (c_n c + 1) in
+  if (c_n c' =? 0) then Ok ((g, c') :: f_remove g st)
+  else if mx <? u16 (u16 (c_n c') + c_e c') then Ok (f_remove g st)     (* complete: delete(s.frags, g); the
+                                                                         merged packet is delivered without error *)
+  else Ok ((g, c') :: f_remove g st).
+
+Fixpoint recv_b (fuel : nat) (self : list Z) (st : fstate) (p : packet) : A fstate :=
+  match fuel with
+  | O => lift (Err EFuel)
+  | S f =>
+    let fl := p_flags p in
+    if (p_id p <? 2) && is_nil (p_body p) && ((fl =? 0) || (fl =? 4)) then ret st     (* isPacketNoP *)
+    else if negb (fl_bit 7 fl) && negb (zlist_eqb self (p_dev p)) then lift (Err EOther)
+    else if fl_bit 6 fl then ret st                                                     (* oneshot *)
+    else if (p_id p =? 4) && negb (fl_bit 8 fl) then ret st                             (* SvComplete *)
+    else if fl_bit 1 fl then
+      if fl_len fl =? 0 then lift (Err EInvalidCount) else unpack_b f self st (fl_len fl) (p_body p)
+    else if fl_bit 0 fl then
+      if (p_id p =? 6) || (p_id p =? 3) then ret st
+      else if fl_len fl =? 0 then lift (Err EInvalidCount)
+      else if fl_len fl =? 1 then recv_b f self st (with_flags (fl_clear fl) p)
+      else
+        let g := fl_group fl in
+        match f_lookup g st with
+        | None => if 0 <? fl_pos fl then ret st                                        (* write(SvDrop) *)
+                  else lift (clus_add g (Build_clus 0 0 None 0) p st)
+        | Some c => lift (clus_add g c p st)
+        end
+    else ret st                                                                         (* receiveSingle *)
+  end
+with unpack_b (fuel : nat) (self : list Z) (st : fstate) (x : Z) (body : list Z) : A fstate :=
+  match fuel with
+  | O => lift (Err EFuel)
+  | S f =>
+    if x <=? 0 then ret st else
+    al '(v, r) <- packet_stream body;
+    al st' <- recv_b f self st v;
+    unpack_b f self st' (x - 1) r
+  end.
+
+(* the harness: the input is the stream form of the top packet; then receive(s, l, &p) on the
+   Session of device `self` *)
+Definition receive_bytes (self : list Z) (s : list Z) : A (list Z) :=
+  al '(p, r) <- packet_stream s;
+  al st <- recv_b (S (S (length s))) self [] p;
+  ret [len st].
+
+(* =========================================================================================
    correspondence cases
    ========================================================================================= *)
 Inductive dec :=
@@ -533,7 +613,8 @@ Definition alloc_class_ok (a n cls : Z) : bool :=
 (* input, observed outcome (digest), observed allocation class.  With class 2 there is no outcome. *)
 Inductive case :=
 | C (d : dec) (input : list Z) (out : res (list Z)) (cls : Z)
-| CB64 (shift : Z) (input : list Z) (observed_decode : res (list Z)) (out : res (list Z)) (cls : Z).
+| CB64 (shift : Z) (input : list Z) (observed_decode : res (list Z)) (out : res (list Z)) (cls : Z)
+| CRecv (self : list Z) (input : list Z) (out : res (list Z)) (cls : Z).
 
 (* errors: the two EOF flavours are compared exactly; EFuel never matches anything observed *)
 Definition check (c : case) : bool :=
@@ -544,6 +625,10 @@ Definition check (c : case) : bool :=
     ((cls =? 2) || res_eqb zlist_eqb (outcome r) out)
   | CB64 shift input dec out cls =>
     let r := b64_read shift dec input in
+    alloc_class_ok (alloc r) (len input) cls &&
+    ((cls =? 2) || res_eqb zlist_eqb (outcome r) out)
+  | CRecv self input out cls =>
+    let r := receive_bytes self input in
     alloc_class_ok (alloc r) (len input) cls &&
     ((cls =? 2) || res_eqb zlist_eqb (outcome r) out)
   end.
